@@ -1,7 +1,7 @@
 (* C15 — before/after/alternate injection is lowered exactly.  Statements only. *)
 From Coq Require Import List NArith ZArith Bool.
 Import ListNotations.
-From Orca Require Import Util Flat Lowering CheckLow LowPlain.
+From Orca Require Import Util Flat Lowering CheckLow LowPlain GenEmit GenEmitProofs GenAddInstr GenAddInstrProofs.
 
 (* For every function body and every plan of before / after / alternate / removal injections (any
    instruction, several injections per site, any of the four API paths — [c_path] is unconstrained),
@@ -38,3 +38,15 @@ Example C15_nonvacuous :
   spec15 (c_plan c) (c_body c)
   = [FConst 7; FDrop; FConst 8; FDrop; FConst 1; FBlock BtEmpty; FOther 3; FOther 2; FEnd; FOther 5; FEnd].
 Proof. vm_compute. split; reflexivity. Qed.
+
+(* Tie to the source by translation: the code-section loop of Module::encode_internal (what one iteration appends:
+   before-code, the alternate or the instruction, after-code; nothing but before-code at the function's final
+   instruction), InstrumentationFlag::has_instr and InstrumentationFlag::add_instr, as the translator reads them from
+   /repo/src on every check, ARE the [emit] / [has_instr] / [add_instr] of the model the theorem above is about. *)
+Theorem C15_translated_emission_is_the_model :
+  (forall body, gen_emit body = emit body) /\
+  (forall body instr_len idx, gen_emit_from instr_len idx body = emit_from instr_len idx body) /\
+  (forall f, gen_has_instr f = has_instr f) /\
+  (forall op m x f, gen_add_instr op m x f = add_instr op m x f).
+Proof. exact (conj gen_emit_is_emit (conj gen_emit_from_is_emit_from (conj gen_has_instr_is_has_instr gen_add_instr_is_add_instr))). Qed.
+Print Assumptions C15_translated_emission_is_the_model.
